@@ -39,7 +39,7 @@ def generate(rng, tier, index):
     c = rng.derive("cfg")
     integ = INTEGS[index % len(INTEGS)] if index < 2 * len(INTEGS) else c.choice(INTEGS)
     cfg = simgen.gen_planetary_config(c, integrators=[integ], nmin=2, nmax=6, allow_collisions=False)
-    cfg["alloc"] = c.choice([1, 2, 2])
+    cfg["alloc"] = c.choice([1, 2, 3])
     cfg["hb"] = True
     merge = integ in ("ias15", "leapfrog", "whfast", "mercurius") and c.chance(0.25)
     if merge:
